@@ -214,14 +214,15 @@ CHECKS = {
  },
  "C11": {
   "text": "Theorems: to_absolute_note along a part's timeline keeps the sounding notes exactly (pitches via the threaded reference, onsets, "
-          "durations with continuations, velocities) for every part whose relative notes have a reference; absolute notes read back their "
+          "durations with continuations, velocities) for every part whose relative notes have a reference, and Score.to_absolute_note on a "
+          "WHOLE score (the dictionary of last pitches threaded through the chords is, seen from one part, that single reference) sounds "
+          "like the original part by part; absolute notes read back their "
           "pitch in any chord; in correct_chord_octave the chord octave and the compensating note octaves cancel for every chord-relative note "
           "and absolute notes are untouched; the corrected bass lies in (-6, 6] and the correction terminates (explicit fuel bound). "
           "decompose_duration is C10's theorem, to_scale_note / to_standard_note rest on C14's parse round trip. All twelve re-notations and "
           "their pairwise compositions are evaluated on the implementation by rendering both sides (oracle); to_absolute_note and "
           "correct_chord_octave are also tied to the model by correspondence. Three defects repaired in /repo.",
-  "note": "Trusted: Coq kernel; adapters. Partial: the score-level dictionary of to_absolute_note is tied to the timeline theorem only by "
-          "correspondence; to_chord_note/to_extension_note, instrument normalisations, split_too_long_chords and normalize are oracle-only. "
+  "note": "Trusted: Coq kernel; adapters. Partial: to_chord_note/to_extension_note, instrument normalisations, split_too_long_chords and normalize are oracle-only. "
           "A relative note with no reference (leading, or after the part was absent) is outside the domain: to_absolute_note raises or uses a stale reference there.",
  },
  "C13": {
